@@ -38,17 +38,73 @@ pub open spec fn phases_alloc<F: Field>(cb: &CircuitBuilder<F>, phases: Seq<Fold
 }
 /// the subgroup start of phase i as the native verifier computes it: g_i^{rev(parent index)} -- an uninterpreted function of exactly what
 /// precompute_subgroup_starts reads (the index-bit values, the height, the arity schedule); its defining equation is the contract of that function
-pub uninterp spec fn sstart<F: Field>(bits: Seq<F>, lmh: nat, ks: Seq<usize>, i: int) -> F;
+pub open spec fn sstart<F: Field>(bits: Seq<F>, lmh: nat, ks: Seq<usize>, i: int) -> F { sstart_def(bits, lmh, ks, i) }
 /// the select-mul chain over the first n bits of `bits` against the powers pw: prod_{t<n} (bits[t] ? pw[t] : 1)
 pub open spec fn selprod<F: Field>(bits: Seq<F>, pw: Seq<F>, n: int) -> F decreases n {
     if n <= 0 { F::fone() } else { selprod(bits, pw, n - 1).fmul(if bits[n - 1] == F::fone() { pw[n - 1] } else { F::fone() }) }
+}
+/// BTreeMap<usize, Vec<usize>> used as "which phases capture the chain after k bits": a map from k to the list of phases, in insertion order
+pub struct CaptureAt { pub m: Ghost<Map<usize, Seq<usize>>> }
+impl CaptureAt {
+    #[verifier::external_body] pub fn new() -> (r: Self) ensures r.m@ == Map::<usize, Seq<usize>>::empty() { unimplemented!() }
+    /// `self.entry(k).or_default().push(v)`
+    #[verifier::external_body] pub fn push_at(&mut self, k: usize, v: usize)
+        ensures final(self).m@ == old(self).m@.insert(k, (if old(self).m@.dom().contains(k) { old(self).m@[k] } else { Seq::<usize>::empty() }).push(v)) { unimplemented!() }
+    #[verifier::external_body] pub fn get(&self, k: &usize) -> (r: Option<&Vec<usize>>)
+        ensures (r matches Some(v) ==> self.m@.dom().contains(*k) && v@ == self.m@[*k]) && (r is None ==> !self.m@.dom().contains(*k)) { unimplemented!() }
+}
+/// the shared select-mul chain of precompute_subgroup_starts after n bits: prod_{t<n} (bits[lmh-1-t] ? lift(g^(2^t)) : 1), g = two_adic_generator(lmh)
+pub open spec fn gchain<F: Field>(bits: Seq<F>, lmh: nat, n: int) -> F decreases n {
+    if n <= 0 { F::fone() } else { gchain(bits, lmh, n - 1).fmul(if bits[lmh - n] == F::fone() { lift::<F>(nsqn(gen(lmh), (n - 1) as nat)) } else { F::fone() }) }
+}
+/// subgroup start of phase i: (chain after log_folded_height_i bits)^(2^bits consumed before phase i); 1 when nothing is left to index
+pub open spec fn sstart_def<F: Field>(bits: Seq<F>, lmh: nat, ks: Seq<usize>, i: int) -> F {
+    let lf0 = lmh - off(ks, 1); let lfi = lmh - off(ks, i + 1);
+    if lf0 <= 0 { F::fone() } else if i == 0 { gchain(bits, lmh, lf0) } else if lfi > 0 { fpow(gchain(bits, lmh, lfi), pow2(off(ks, i) as nat)) } else { F::fone() }
+}
+pub open spec fn lfh_of(ks: Seq<usize>, lmh: int) -> Seq<int> { Seq::new(ks.len(), |i: int| lmh - off(ks, i + 1)) }
+pub open spec fn cap_sound(m: Map<usize, Seq<usize>>, lfh: Seq<int>, i: int) -> bool {
+    forall|k: usize, t: int| m.dom().contains(k) && 0 <= t < m[k].len() ==> 1 <= #[trigger] m[k][t] < i && m[k][t] < lfh.len() && lfh[m[k][t] as int] == k && k > 0
+}
+pub open spec fn cap_has(m: Map<usize, Seq<usize>>, k: usize, p: int) -> bool { m.dom().contains(k) && exists|t: int| 0 <= t < m[k].len() && #[trigger] m[k][t] == p }
+pub open spec fn cap_complete(m: Map<usize, Seq<usize>>, lfh: Seq<int>, i: int) -> bool { forall|p: int| 1 <= p < i && p < lfh.len() && lfh[p] > 0 ==> #[trigger] cap_has(m, lfh[p] as usize, p) }
+/// value a phase's slot holds after the chain has consumed j bits
+pub open spec fn tgt<F: Field>(bv: Seq<F>, lmh: nat, ks: Seq<usize>, lfh: Seq<int>, p: int, j: int) -> F {
+    if p >= 1 && 0 < lfh[p] <= j { fpow(gchain(bv, lmh, lfh[p]), pow2(off(ks, p) as nat)) } else { F::fone() }
+}
+pub open spec fn in_list(pi: Seq<usize>, p: int) -> bool { exists|t: int| 0 <= t < pi.len() && #[trigger] pi[t] == p }
+pub proof fn lemma_cap_push(m: Map<usize, Seq<usize>>, lfh: Seq<int>, i: int, lf: usize)
+    requires cap_sound(m, lfh, i), cap_complete(m, lfh, i), 1 <= i < lfh.len(), lfh[i] == lf, lf > 0, lfh.len() <= usize::MAX
+    ensures ({ let m2 = m.insert(lf, (if m.dom().contains(lf) { m[lf] } else { Seq::<usize>::empty() }).push(i as usize)); cap_sound(m2, lfh, i + 1) && cap_complete(m2, lfh, i + 1) })
+{
+    let old_l = if m.dom().contains(lf) { m[lf] } else { Seq::<usize>::empty() };
+    let m2 = m.insert(lf, old_l.push(i as usize));
+    assert forall|k: usize, t: int| m2.dom().contains(k) && 0 <= t < m2[k].len() implies 1 <= #[trigger] m2[k][t] < i + 1 && m2[k][t] < lfh.len() && lfh[m2[k][t] as int] == k && k > 0 by {
+        if k == lf { if t < old_l.len() { assert(m2[k][t] == old_l[t]); assert(m.dom().contains(lf)); assert(m[k][t] == old_l[t]); } } else { assert(m2[k] == m[k]); assert(m[k][t] == m2[k][t]); }
+    }
+    assert forall|p: int| 1 <= p < i + 1 && p < lfh.len() && lfh[p] > 0 implies #[trigger] cap_has(m2, lfh[p] as usize, p) by {
+        if p == i { assert(m2[lf][old_l.len() as int] == i); }
+        else { assert(cap_has(m, lfh[p] as usize, p)); let k = lfh[p] as usize; let t = choose|t: int| 0 <= t < m[k].len() && #[trigger] m[k][t] == p;
+               if k == lf { assert(m2[k][t] == old_l[t]); } else { assert(m2[k] == m[k]); assert(m2[k][t] == p); } }
+    }
+}
+pub proof fn lemma_cap_skip(m: Map<usize, Seq<usize>>, lfh: Seq<int>, i: int)
+    requires cap_sound(m, lfh, i), cap_complete(m, lfh, i), 1 <= i < lfh.len(), lfh[i] <= 0
+    ensures cap_sound(m, lfh, i + 1) && cap_complete(m, lfh, i + 1)
+{
+    assert forall|p: int| 1 <= p < i + 1 && p < lfh.len() && lfh[p] > 0 implies #[trigger] cap_has(m, lfh[p] as usize, p) by { assert(p < i); }
 }
 pub uninterp spec fn nsq(x: NF) -> NF;                          // x.square()
 pub open spec fn nsqn(x: NF, j: nat) -> NF decreases j { if j == 0 { x } else { nsq(nsqn(x, (j - 1) as nat)) } }
 /// reversed remaining bits, zero-padded in front: what compute_final_query_point runs its select-mul chain over
 pub open spec fn final_bits<F: Field>(bits: Seq<F>, lmh: int, total: int) -> Seq<F> { Seq::new(lmh as nat, |t: int| if t < total { F::fzero() } else { bits[lmh - 1 - (t - total)] }) }
 pub open spec fn imin(a: int, b: int) -> int { if a <= b { a } else { b } }
-impl NF { #[verifier::external_body] pub fn square(&self) -> (r: NF) ensures r == nsq(*self) { unimplemented!() } }
+pub uninterp spec fn ninv(x: NF) -> NF;                         // x.inverse()
+impl NF {
+    #[verifier::external_body] pub fn square(&self) -> (r: NF) ensures r == nsq(*self) { unimplemented!() }
+    #[verifier::external_body] pub fn inverse(&self) -> (r: NF) ensures r == ninv(*self) { unimplemented!() }
+    #[verifier::external_body] pub fn exp_power_of_2(&self, k: usize) -> (r: NF) ensures r == nsqn(*self, k as nat) { unimplemented!() }
+}
 } // verus!
 '''
 
@@ -128,13 +184,6 @@ def build():
     u.text(SPEC)
     V = 'recursion/src/pcs/fri/verifier.rs'
     u.text('verus! {\n' + stub_fold_one_phase(u) + '''
-/// contract of precompute_subgroup_starts (its own obligations are in this unit): one allocated start per phase, valued sstart, non-zero points
-#[verifier::external_body]
-pub fn precompute_subgroup_starts<EF: FoldX>(builder: &mut CircuitBuilder<EF>, index_bits: &[Target], log_max_height: usize, log_arities: &[usize], cumulative_bits: &[usize]) -> (ret: Vec<Target>)
-    requires old(builder).has_all(index_bits@),
-    ensures final(builder).extends_pure(old(builder)), final(builder).has_all(ret@), ret@.len() == log_arities@.len(),
-        forall|i: int| 0 <= i < ret@.len() ==> final(builder).val(#[trigger] ret@[i]) == sstart::<EF>(old(builder).vals_of(index_bits@), log_max_height as nat, log_arities@, i),
-{ unimplemented!() }
 }
 ''')
 
@@ -147,6 +196,7 @@ pub fn precompute_subgroup_starts<EF: FoldX>(builder: &mut CircuitBuilder<EF>, i
             && off(log_arities@, phases@.len() as int) <= index_bits@.len()
             && all_bool(old(builder).vals_of(index_bits@))
             && forall|i: int| 0 <= i < phases@.len() ==> 1 <= #[trigger] log_arities@[i] < 32 && phases@[i].siblings@.len() == p2(log_arities@[i] as int) - 1''')
+    fc.requires('schedule', '''phases@.len() >= 1 && cumulative_bits@.len() == log_arities@.len() + 1 && (forall|i: int| 0 <= i <= log_arities@.len() ==> #[trigger] cumulative_bits@[i] == off(log_arities@, i))''')
     fc.requires('beta_powers', 'forall|i: int| 0 <= i < phases@.len() ==> old(builder).val(#[trigger] beta_pows_per_phase@[i]) == fpow(old(builder).val(phases@[i].beta), pow2(log_arities@[i] as nat))')
     fc.requires('non_zero_points', 'forall|i: int| 0 <= i < phases@.len() ==> points_nonzero::<EF>(log_arities@[i] as nat, #[trigger] sstart::<EF>(old(builder).vals_of(index_bits@), index_bits@.len() as nat, log_arities@, i))')
     fc.ensures('frame', 'final(builder).extends_pure(old(builder)) && final(builder).has(ret)')
@@ -240,8 +290,85 @@ pub fn precompute_subgroup_starts<EF: FoldX>(builder: &mut CircuitBuilder<EF>, i
             ('reversed', 'reversed_bits@.len() == total_bits_consumed + er_ && forall|t: int| 0 <= t < reversed_bits@.len() ==> b1.has(#[trigger] reversed_bits@[t]) && b1.val(reversed_bits@[t]) == fb[t]')])
         fq.loop('for fz_ in 0..n_fz_', invariants=[
             ('chain', 'builder.extends_pure(&b1) && builder.has(result) && builder.has(one) && builder.val(one) == EF::fone() && builder.val(result) == selprod(fb, pw, fz_ as int)')])
+
+    # ---------------------------------------------------------------- precompute_subgroup_starts
+    ss = common(erase_sig(u.extract(V, '', 'precompute_subgroup_starts', 'precompute_subgroup_starts')))
+    unrange_map_collect_general(ss)
+    unsuccessors(ss)
+    ss.rewrite_re('R7', r'let mut (\w+): BTreeMap<usize, Vec<usize>> = BTreeMap::new\(\);', r'let mut \1: CaptureAt = CaptureAt::new();', min_count=0)
+    ss.rewrite_re('R6', r'(\w+)\.entry\(([^()]+)\)\.or_default\(\)\.push\(([^()]+)\);', r'\1.push_at(\2, \3);', min_count=0)
+    ss.rewrite_re('R5', r'for \((\w+), &(\w+)\) in (\w+)\s*\.iter\(\)\s*\.enumerate\(\)\s*\.take\((\w+)\)\s*\.skip\((\w+)\)\s*\{',
+                  r'let n_ts_ = if \4 <= \3.len() { \4 } else { \3.len() }; for \1 in \5..n_ts_ { let \2 = \3[\1];', min_count=0)
+    ss.rewrite_re('R5', r'for &(\w+) in (\w+) \{', r'for fi_ in 0..\2.len() { let \1 = \2[fi_];', min_count=0)
+    ss.rewrite_re('R11', r'\bVec<_>', 'Vec<Target>', min_count=0)
+    ss.attr('#[verifier::loop_isolation(false)]')
+    ss.requires('schedule', '''log_arities@.len() >= 1 && cumulative_bits@.len() == log_arities@.len() + 1 && log_max_height == index_bits@.len() && log_max_height < 0x1_0000_0000
+            && (forall|i: int| 0 <= i <= log_arities@.len() ==> #[trigger] cumulative_bits@[i] == off(log_arities@, i)) && off(log_arities@, log_arities@.len() as int) <= log_max_height
+            && (forall|i: int| 0 <= i < log_arities@.len() ==> #[trigger] log_arities@[i] < 32)''')
+    ss.requires('allocated_boolean_index_bits', 'old(builder).has_all(index_bits@) && all_bool(old(builder).vals_of(index_bits@))')
+    ss.ensures('frame', 'final(builder).extends_pure(old(builder)) && final(builder).has_all(ret@) && ret@.len() == log_arities@.len()')
+    ss.ensures('each_phase_start_is_the_power_of_the_shared_chain_prefix', '''forall|i: int| 0 <= i < ret@.len() ==> final(builder).val(#[trigger] ret@[i]) == sstart::<EF>(old(builder).vals_of(index_bits@), log_max_height as nat, log_arities@, i)''')
+    TG = 'tgt::<EF>(bv, lmh as nat, ks, lfh, p, {j})'
+    CONSTS = 'builder.has(one) && builder.val(one) == EF::fone()'
+    ss.at_start('''let ghost b0 = *old(builder); let ghost ks = log_arities@; let ghost lmh = log_max_height as int; let ghost bv = old(builder).vals_of(index_bits@); let ghost lfh = lfh_of(log_arities@, log_max_height as int);
+        proof { assert forall|i: int| 0 <= i < ks.len() implies 0 <= #[trigger] lfh[i] <= lmh by { lemma_off_mono(ks, i + 1, ks.len() as int); lemma_off_mono(ks, 0, i + 1); }
+                assert forall|i: int, i2: int| 0 <= i <= i2 < ks.len() implies #[trigger] lfh[i2] <= #[trigger] lfh[i] by { lemma_off_mono(ks, i + 1, i2 + 1); } }''')
+    heads = ['for i in 0..num_phases', 'for s_ in 0..(', 'for i in 1..n_ts_', 'for j in 0..max_chain_len', 'for fi_ in 0..phase_indices.len()']
+    if all(h in ss.body for h in heads):
+        # ---- insertions first
+        lo = ss._loop_open('for i in 0..num_phases')
+        ss.body = ss.body[:lo + 1] + ' proof { assert(0 <= lfh[i as int]); lemma_off_mono(ks, i as int + 1, ks.len() as int); } ' + ss.body[lo + 1:]
+        lo = ss._loop_open('for s_ in 0..(')
+        ss.body = ss.body[:lo + 1] + ' let ghost v_b = v_s_@; let ghost b_b = *builder; ' + ss.body[lo + 1:]
+        ss.at_loop_end('for s_ in 0..(', """proof { reveal_with_fuel(nsqn, 2); assert forall|q: int| 0 <= q < v_s_@.len() implies builder.has(#[trigger] v_s_@[q]) && (q < s_ + 1 ==> builder.val(v_s_@[q]) == lift::<EF>(nsqn(gen(lmh as nat), q as nat))) by { if q < s_ { assert(v_s_@[q] == v_b[q]); assert(b_b.has(v_b[q])); } } }""")
+        lo = ss._loop_open('for i in 1..n_ts_')
+        ss.body = ss.body[:lo + 1] + ' let ghost m_b = capture_at.m@; ' + ss.body[lo + 1:]
+        ss.at_loop_end('for i in 1..n_ts_', 'proof { if lfh[i as int] > 0 { lemma_cap_push(m_b, lfh, i as int, lfh[i as int] as usize); } else { lemma_cap_skip(m_b, lfh, i as int); } }')
+        ss.before('for j in 0..max_chain_len', 'let ghost b1 = *builder;')
+        lo = ss._loop_open('for j in 0..max_chain_len')
+        ss.body = ss.body[:lo + 1] + ''' let ghost b_j0 = *builder; let ghost res_j0 = result@;
+            proof { assert(parent_offset_0 + max_chain_len - 1 - j == lmh - 1 - j); assert(is_bool(bv[lmh - 1 - j])); assert(b0.has(index_bits@[lmh - 1 - j])); assert(bv[lmh - 1 - j] == b0.val(index_bits@[lmh - 1 - j])); } ''' + ss.body[lo + 1:]
+        ss.before('let bits_done = j + 1;', '''let ghost b_j = *builder; proof { reveal_with_fuel(gchain, 2); assert(builder.val(g_pow) == gchain(bv, lmh as nat, j + 1)); }''')
+        lo = ss._loop_open('for fi_ in 0..phase_indices.len()')
+        ss.body = ss.body[:lo + 1] + ''' let ghost b_f0 = *builder; let ghost res_f0 = result@;
+                proof { assert(capture_at.m@[bits_done][fi_ as int] == phase_indices@[fi_ as int]); } ''' + ss.body[lo + 1:]
+        ss.at_loop_end('for fi_ in 0..phase_indices.len()', '''proof {
+                    let pi = phase_indices@;
+                    assert forall|q: int| 0 <= q < result@.len() implies builder.has(#[trigger] result@[q]) by { if q != phase_i { assert(result@[q] == res_f0[q]); assert(b_f0.has(res_f0[q])); } }
+                    assert forall|t: int| 0 <= t < fi_ + 1 implies builder.val(result@[#[trigger] pi[t] as int]) == fpow(gchain(bv, lmh as nat, j + 1), pow2(off(ks, pi[t] as int) as nat)) by {
+                        if pi[t] != phase_i { assert(result@[pi[t] as int] == res_f0[pi[t] as int]); assert(b_f0.has(res_f0[pi[t] as int])); } }
+                    assert forall|p: int| 0 <= p < result@.len() && !in_list(pi, p) implies builder.val(#[trigger] result@[p]) == b_j.val(res_j0[p]) by {
+                        assert(pi[fi_ as int] == phase_i); if p == phase_i { assert(in_list(pi, p)); } assert(result@[p] == res_f0[p]); assert(b_f0.has(res_f0[p])); }
+                }''')
+        ss.at_loop_end('for j in 0..max_chain_len', '''proof {
+                assert forall|p: int| 0 <= p < result@.len() implies builder.has(#[trigger] result@[p]) && builder.val(result@[p]) == tgt::<EF>(bv, lmh as nat, ks, lfh, p, j + 1) by {
+                    let k = (j + 1) as usize;
+                    if capture_at.m@.dom().contains(k) {
+                        let pi = capture_at.m@[k];
+                        if in_list(pi, p) { let t = choose|t: int| 0 <= t < pi.len() && #[trigger] pi[t] == p; assert(lfh[pi[t] as int] == k); }
+                        else { if p >= 1 && lfh[p] == j + 1 { assert(cap_has(capture_at.m@, lfh[p] as usize, p)); } assert(b_j0.has(res_j0[p])); }
+                    } else {
+                        if p >= 1 && lfh[p] == j + 1 { assert(cap_has(capture_at.m@, lfh[p] as usize, p)); }
+                        assert(result@[p] == res_j0[p]); assert(b_j0.has(res_j0[p]));
+                    }
+                }
+            }''')
+        # ---- loop contracts last
+        ss.loop('for i in 0..num_phases', invariants=[('heights', 'v_r0_@.len() == i && forall|q: int| 0 <= q < i ==> #[trigger] v_r0_@[q] == lfh[q]')])
+        ss.loop('for s_ in 0..(', invariants=[
+            ('powers', f'builder.extends_pure(&b0) && {CONSTS} && builder.has_all(v_s_@) && v_s_@.len() == s_ && cur_s_ == nsqn(gen(lmh as nat), s_ as nat) && forall|q: int| 0 <= q < s_ ==> builder.val(#[trigger] v_s_@[q]) == lift::<EF>(nsqn(gen(lmh as nat), q as nat))')])
+        ss.loop('for i in 1..n_ts_', invariants=[('capture', 'cap_sound(capture_at.m@, lfh, i as int) && cap_complete(capture_at.m@, lfh, i as int)')])
+        ss.loop('for j in 0..max_chain_len', invariants=[
+            ('chain', f'''builder.extends_pure(&b1) && {CONSTS} && builder.has(g_pow) && builder.val(g_pow) == gchain(bv, lmh as nat, j as int) && result@.len() == num_phases
+                && forall|p: int| 0 <= p < result@.len() ==> builder.has(#[trigger] result@[p]) && builder.val(result@[p]) == {TG.format(j='j as int')}''')])
+        ss.loop('for fi_ in 0..phase_indices.len()', invariants=[
+            ('captured', '''builder.extends_pure(&b_j) && builder.has(g_pow) && builder.val(g_pow) == gchain(bv, lmh as nat, j + 1) && result@.len() == num_phases
+                && (forall|q: int| 0 <= q < result@.len() ==> builder.has(#[trigger] result@[q]))
+                && (forall|t: int| 0 <= t < fi_ ==> builder.val(result@[#[trigger] phase_indices@[t] as int]) == fpow(gchain(bv, lmh as nat, j + 1), pow2(off(ks, phase_indices@[t] as int) as nat)))
+                && (forall|p: int| 0 <= p < result@.len() && !in_list(phase_indices@, p) ==> builder.val(#[trigger] result@[p]) == b_j.val(res_j0[p]))''')])
     u.text('verus! {')
     u.emit(bp)
+    u.emit(ss)
     u.emit(tp)
     u.emit(fq)
     u.text('}')
